@@ -97,8 +97,9 @@ Init ==
         case = [part |-> "select", decl |-> DeclSeq(d), hdr |-> h, hdrText |-> (IF "absent" \in DOMAIN h THEN "" ELSE Render(h)), required |-> req,
                 bodyKey |-> DeclSeq(d)[1], empty |-> TRUE, declText |-> [i \in 1..Cardinality(d) |-> Render(DeclSeq(d)[i])], bare |-> NoneRec, emptyForm |-> ef]
    \* a parameter on the declared key and / or on the Content-Type header of every decoder family that has one
-   \/ \E fam \in {"json", "form", "text", "yaml", "octet"}, dp \in {"", "charset=utf-8"}, hp \in {"", "charset=utf-8", "charset=ascii"}, good \in BOOLEAN :
-        case = [part |-> "decode", family |-> fam, schema |-> (IF fam \in {"text", "octet"} THEN "T3" ELSE "S2"),
+   \* (entry: the body check called on its own / as part of ValidateRequest)
+   \/ \E fam \in {"json", "form", "text", "yaml", "octet"}, dp \in {"", "charset=utf-8"}, hp \in {"", "charset=utf-8", "charset=ascii"}, good \in BOOLEAN, en \in {"body", "request"} :
+        case = [entry |-> en, part |-> "decode", family |-> fam, schema |-> (IF fam \in {"text", "octet"} THEN "T3" ELSE "S2"),
                 v |-> (IF fam \in {"text", "octet"} THEN (IF good THEN St(<<"a", "b">>) ELSE St(<<"a">>))
                        ELSE (IF good THEN Obj(<<"n", "s">>, <<N(4), St(<<"a">>)>>) ELSE Obj(<<"n", "ro">>, <<N(4), St(<<"v">>)>>))),
                 excludeRO |-> FALSE, enc |-> "default", clen |-> "known", setDefaults |-> FALSE, declPar |-> dp, hdrPar |-> hp]
@@ -108,12 +109,14 @@ Init ==
         /\ case = [part |-> "decode", family |-> fam, schema |-> "S2", v |-> v, excludeRO |-> FALSE, enc |-> "default", clen |-> "known", setDefaults |-> FALSE, spell |-> sp]
    \* multipart parts that say what they are: application/json parts (typed values, a nested object), file parts (filename, application/octet-stream);
    \* boundary spellings (generated / one that has to be quoted in the header / one character)
-   \/ \E sc \in {"S1", "S2", "S8"}, v \in ObjVals \cup NestVals \cup FileVals, pct \in {"json", "file"}, bd \in {"default", "quoted", "short"}, xro \in BOOLEAN :
+   \* encCT: the media type also declares, per property, the Content-Type its part is sent with (Encoding Object contentType)
+   \/ \E sc \in {"S1", "S2", "S8"}, v \in ObjVals \cup NestVals \cup FileVals, pct \in {"json", "file"}, bd \in {"default", "quoted", "short"}, xro \in BOOLEAN, ect \in BOOLEAN :
         /\ (sc = "S8" <=> v \in NestVals)
         /\ (pct = "file" <=> v \in FileVals)
         /\ (bd # "default" => ~xro)
+        /\ (ect => bd = "default")
         /\ case = [part |-> "decode", family |-> "multipart", schema |-> sc, v |-> v, excludeRO |-> xro, enc |-> "default", clen |-> "known",
-                   setDefaults |-> FALSE, partCT |-> pct, boundary |-> bd]
+                   setDefaults |-> FALSE, partCT |-> pct, boundary |-> bd, encCT |-> ect]
    \* the object-valued property through the other decoders that can carry one
    \/ \E fam \in {"json", "yaml"}, v \in NestVals :
         case = [part |-> "decode", family |-> fam, schema |-> "S8", v |-> v, excludeRO |-> FALSE, enc |-> "default", clen |-> "known", setDefaults |-> FALSE]
